@@ -59,10 +59,37 @@ def _seq_fields(node: ast.expr, selfname: str, env) -> Optional[List[Tuple[str, 
     return None
 
 
+class FieldInTemplate(Exception):
+    """A message field is part of a format template: its own text is interpreted, not copied."""
+
+
+def _mentions_field(expr: ast.expr, selfname: str, env, depth: int = 0) -> Optional[str]:
+    lens = {id(a) for c in ast.walk(expr) if isinstance(c, ast.Call) and isinstance(c.func, ast.Name) and c.func.id == "len" for a in ast.walk(c)}
+    for n in ast.walk(expr):
+        if isinstance(n, ast.Attribute) and isinstance(n.value, ast.Name) and n.value.id == selfname and id(n) not in lens:
+            return n.attr
+    for n in ast.walk(expr):
+        if isinstance(n, ast.Name) and n.id in env and depth < 4 and id(n) not in lens:
+            f = _mentions_field(env[n.id], selfname, env, depth + 1)
+            if f:
+                return f
+    return None
+
+
 def template(expr: ast.expr, selfname: str, env) -> Optional[dict]:
     """Evaluate an encoder return expression into {fields, sep, tail}."""
     if isinstance(expr, ast.Name) and expr.id in env:
         return template(env[expr.id], selfname, env)
+    if isinstance(expr, ast.BinOp) and isinstance(expr.op, ast.Mod):
+        fld = _mentions_field(expr.left, selfname, env)
+        if fld:
+            raise FieldInTemplate(f"the %-format template `{unparse(expr.left)[:40]}` is built from the message's `{fld}`: a '%' in the field is interpreted as a conversion, so the frame is not the field's text")
+        return None
+    if isinstance(expr, ast.Call) and isinstance(expr.func, ast.Attribute) and expr.func.attr in ("format", "format_map"):
+        fld = _mentions_field(expr.func.value, selfname, env)
+        if fld:
+            raise FieldInTemplate(f"the str.format template `{unparse(expr.func.value)[:40]}` is built from the message's `{fld}`: braces in the field are interpreted, so the frame is not the field's text")
+        return None
     if isinstance(expr, ast.BinOp) and isinstance(expr.op, ast.Add):
         left = template(expr.left, selfname, env)
         if left is not None and isinstance(expr.right, ast.Constant) and isinstance(expr.right.value, str):
@@ -361,7 +388,11 @@ def ctor_copy_paths(analysis: Analysis):
 def layout_agreement(analysis: Analysis):
     """C02-R1 as a list of (construct, ok, where, detail). Also used as the precondition of LEMMA-COPY."""
     out = []
-    enc_info, templ, none_returns = encode_template(analysis)
+    try:
+        enc_info, templ, none_returns = encode_template(analysis)
+    except FieldInTemplate as exc:
+        enc_info = analysis.p.func("message:Message.encode")
+        return [("encode: fields are copied into the frame, never interpreted", False, common.where(analysis, enc_info, enc_info.node), str(exc))]
     fields = [n for n, _w in templ["fields"]]
     w_enc = common.where(analysis, enc_info, enc_info.node)
     out.append(("encode: six fields in frame order", fields == FIELDS, w_enc, f"encoder joins {fields}"))
